@@ -21,7 +21,7 @@ LEVEL = "model_checking"
 RULE = (
     "explicit-state BFS over all histories (up to the depth bound) of the events {enter A, enter B, exit, exit with an "
     "escaping exception, compile c0, compile c1 (module-level, current context), compile c0 with ctx=A, integrate(cc0), "
-    "multiply(cc0, cc1), compile a derived circuit before its operands}; every transition calls the real API on fresh real "
+    "multiply(cc0, cc1), conjugate(cc0), concatenate(cc0, cc1), compile a derived circuit before its operands}; every transition calls the real API on fresh real "
     "objects (whole history replayed inside contextvars.copy_context()), a Python reference model (stack of contexts + "
     "per-context compiled maps + compile log) is stepped in lockstep and the invariant is evaluated in every state. "
     "State key = (context stack, per-context set of compiled circuits)"
@@ -54,7 +54,7 @@ CONFIGS = [
     ({"semiring": "complex-lse-sum", "fold": True, "optimize": True}, {"semiring": "sum-product", "fold": False, "optimize": False}),
 ]
 
-EVENTS = ["enterA", "enterB", "exit", "exit-raise", "compile c0", "compile c1", "compileA c0", "integrate", "multiply", "derived-first"]
+EVENTS = ["enterA", "enterB", "exit", "exit-raise", "compile c0", "compile c1", "compileA c0", "integrate", "multiply", "conjugate", "concatenate", "derived-first"]
 
 
 def cases(tier, seed):
@@ -84,9 +84,9 @@ def enabled(m):
     evs += ["compile c0", "compile c1", "compileA c0", "derived-first"]
     anywhere = set().union(*[set(v) for v in m["compiled"].values()])
     if "c0" in anywhere:
-        evs.append("integrate")
+        evs += ["integrate", "conjugate"]
     if "c0" in anywhere and "c1" in anywhere:
-        evs.append("multiply")
+        evs += ["multiply", "concatenate"]
     return evs
 
 
@@ -190,8 +190,8 @@ def step(real, m, ev):
         probs += _compile_in(real, m, "A", "c0", "explicit")
     elif ev == "derived-first":
         probs += _compile_in(real, m, cur, "d", "module")
-    elif ev in ("integrate", "multiply"):
-        names = ["c0"] if ev == "integrate" else ["c0", "c1"]
+    elif ev in ("integrate", "multiply", "conjugate", "concatenate"):
+        names = ["c0"] if ev in ("integrate", "conjugate") else ["c0", "c1"]
         ccs, known = [], True
         for n in names:
             if n in m["compiled"][cur]:
@@ -201,7 +201,8 @@ def step(real, m, ev):
                 other = next(c for c in ("D", "A", "B") if n in m["compiled"][c])
                 ccs.append(real["cc"][(other, n)])
         try:
-            res = PL.integrate(ccs[0]) if ev == "integrate" else PL.multiply(ccs[0], ccs[1])
+            res = {"integrate": lambda: PL.integrate(ccs[0]), "multiply": lambda: PL.multiply(ccs[0], ccs[1]),
+                   "conjugate": lambda: PL.conjugate(ccs[0]), "concatenate": lambda: PL.concatenate(ccs[0], ccs[1])}[ev]()
             err = None
         except Exception as e:  # noqa
             res, err = None, e
@@ -213,15 +214,14 @@ def step(real, m, ev):
         if err is not None:
             probs.append((f"{ev} on circuits known in the current context raised {type(err).__name__}: {err}", {"kind": "operator-raised", "event": ev}))
             return probs
-        name = "int0" if ev == "integrate" else "mul01"
         ctx = real["ctx"][cur]
-        prev = real["cc"].get((cur, name + "#" + ev))
         # each call builds a new symbolic circuit, so a new compiled circuit is legitimate; check its registration
         if not ctx.has_symbolic(res):
             probs.append((f"result of {ev} is not registered in the current context", {"kind": "operator-result-unregistered", "event": ev}))
             return probs
         ssym = ctx.get_symbolic_circuit(res)
-        want_op = CircuitOperator.INTEGRATION if ev == "integrate" else CircuitOperator.MULTIPLICATION
+        want_op = {"integrate": CircuitOperator.INTEGRATION, "multiply": CircuitOperator.MULTIPLICATION,
+                   "conjugate": CircuitOperator.CONJUGATION, "concatenate": CircuitOperator.CONCATENATE}[ev]
         want_operands = tuple(real["sym"][n] for n in names)
         if ssym.operation is None or ssym.operation.operator != want_op or tuple(ssym.operation.operands) != want_operands:
             probs.append((f"symbolic circuit of the {ev} result has operation {ssym.operation}", {"kind": "operator-result-symbolic", "event": ev}))
@@ -238,7 +238,8 @@ def numeric_check(real, cur, ev, res, names):
     comp = ctx._compiler
     fresh = TorchCompiler(**flags)
     syms = [real["sym"][n] for n in names]
-    sres = SF.integrate(syms[0]) if ev == "integrate" else SF.multiply(syms[0], syms[1])
+    sres = {"integrate": lambda: SF.integrate(syms[0]), "multiply": lambda: SF.multiply(syms[0], syms[1]),
+            "conjugate": lambda: SF.conjugate(syms[0]), "concatenate": lambda: SF.concatenate(syms)}[ev]()
     fc = fresh.compile(sres)
     val = cdl.valuation(real["roles"], "monotone", int(os.environ.get("VERIF_SEED", "0")))
     bind_compiler(comp, val)
